@@ -177,6 +177,37 @@ example :
      | .error _ => none) = some "b".toList ∧
     specTrim .prefix .longest ast "ab".toList = [] := by decide
 
+/-- ★ Suffix removal needs NO hypothesis on the pattern: for every syntax tree — including brackets with
+    multi-character collating symbols / equivalence classes, whose matches have different lengths although the
+    pattern has no `*` — `find` with `\z` returns the longest and the `rfind` loop the shortest matching suffix,
+    so `%%` / `%` remove exactly those (the leftmost / rightmost matching start does not depend on which
+    alternative of `(?:ch|[h])` is tried first). -/
+theorem suffix_trim_correct (ast : Ast) (len : TrimLength)
+    (p : Pattern) (h : Pattern.fromAst ast (trimConfig .suffix len) = .ok p) (v : List Char) :
+    trimSearch p v = specRange .suffix len ast v ∧ trimValue p v = specTrim .suffix len ast v :=
+  ⟨Proofs.find_is_extremal_suffix ast len p h v, Proofs.trim_correct_suffix ast len p h v⟩
+
+/-- ★ `%` spelled out: either no suffix matches and nothing is removed, or what is removed is a matching
+    suffix and no proper shorter suffix matches. -/
+theorem percent_removes_shortest (ast : Ast) (p : Pattern)
+    (h : Pattern.fromAst ast (trimConfig .suffix .shortest) = .ok p) (v : List Char) :
+    (trimValue p v = v ∧ ∀ j, j ≤ v.length → globMatch ast (v.drop j) = false) ∨
+    (∃ k, k ≤ v.length ∧ trimValue p v = v.take k ∧ globMatch ast (v.drop k) = true ∧
+      ∀ j, k < j → j ≤ v.length → globMatch ast (v.drop j) = false) :=
+  Proofs.percent_removes_shortest ast p h v
+
+/-- non-vacuity with a bracket of variable match length: `[[.ch.]h]` has no `*`, is outside `noMulti`, and
+    matches both `h` and `ch`; on `ach` `%` removes `h`, `%%` removes `ch`; `?[[.ch.]h]` on `bach`: `ch`→`ba`. -/
+example :
+    let b : Atom := .bracket ⟨false, [.atom (.collating ['c', 'h']), .atom (.char 'h')]⟩
+    noMulti [b] = false ∧
+    globMatch [b] "h".toList = true ∧ globMatch [b] "ch".toList = true ∧
+    (match Pattern.fromAst [b] (trimConfig .suffix .shortest), Pattern.fromAst [b] (trimConfig .suffix .longest),
+        Pattern.fromAst [.anyChar, b] (trimConfig .suffix .shortest) with
+     | .ok p, .ok q, .ok r => some (trimValue p "ach".toList, trimValue q "ach".toList, trimValue r "bach".toList)
+     | _, _, _ => none) = some ("ac".toList, "a".toList, "ba".toList) ∧
+    specTrim .suffix .shortest [b] "ach".toList = "ac".toList := by decide
+
 /-! ## ★ patterns inside the defined notation always compile -/
 
 /-- ★ Converse of `invalid_pattern_fallbacks`: a syntax tree with defined class names, no class as range
